@@ -15,3 +15,14 @@ package downloader
 //@ assert before call (*trie.Sync).Process: [one-item-with-the-blob] len(a1) == 1 && a1[0].Data == blob && res.Data == blob
 //@ assert before call (*trie.Sync).Process: [hash-is-keccak-of-blob] forall i: int :: 0 <= i && i < 32 ==> a1[0].Hash[i] == c19Keccak(old(elems(blob)), off(blob), len(blob))[i]
 //@ assert before call (*trie.Sync).Process: [hashed-exactly-the-blob] c19Writes == 1 && c19AbsArr == old(elems(blob)) && c19AbsOff == off(blob) && c19AbsLen == len(blob)
+
+// The flush of the scheduler's memory batch: trie.Sync.Commit has already reset its membatch when the database batch is written, so a
+// failed Batch.Write loses those nodes for good — the counters may be reset and success reported only after the write returned nil.
+// Typestate through a ghost flag set from the result of the write (asserts in a `nobody` contract are verified on the body).
+//@ ghost var c19BatchWritten: bool
+//@ func (*trieSync).commit props C19
+//@ nobody
+//@ modifies all, c19BatchWritten
+//@ ghost at entry: c19BatchWritten := false
+//@ ghost after call (youdb.Batch).Write: c19BatchWritten := ret == nil
+//@ assert before store numUncommitted: [counters-reset-only-after-successful-write] c19BatchWritten
